@@ -25,6 +25,7 @@ import (
 
 	"verif.local/sim/core"
 	"verif.local/sim/gen"
+	"verif.local/sim/gobcanon"
 	"verif.local/sim/sched"
 	"verif.local/sim/simrt"
 	"verif.local/sim/wire"
@@ -438,8 +439,8 @@ func finish(c *core.Ctx, s *sched.S) {
 
 // decodeOp builds "decode a private input": every task gets its own value,
 // its own bytes and its own receiver. JSON inputs may be damaged by a wire
-// fault (error paths then run concurrently too); gob inputs stay clean
-// because encoding/gob's map order makes damaged gob bytes irreproducible.
+// fault (error paths then run concurrently too); gob inputs are canonicalised
+// first (gobcanon), so that one seed yields one byte string.
 func decodeOp(t *core.Tape, task int) *op {
 	k := gen.Knobs{MaxDepth: 1 + t.Draw(2), FieldP: 2 + t.Draw(6), MaxList: 2, Budget: 8, Links: true}
 	g := gen.New(t, k)
@@ -455,6 +456,7 @@ func decodeOp(t *core.Tape, task int) *op {
 		dec = func(b []byte) (any, error) { return ap.UnmarshalJSON(b) }
 	case 2:
 		data, _ = ap.GobEncode(val)
+		data = gobcanon.Canon(data)
 		name = "pkg.GobDecode"
 		dec = func(b []byte) (any, error) { return ap.GobDecode(b) }
 	default:
@@ -475,7 +477,7 @@ func decodeOp(t *core.Tape, task int) *op {
 		}
 	}
 	damaged := false
-	if which != 2 && t.Bool(1, 3) && len(data) > 0 {
+	if t.Bool(1, 3) && len(data) > 0 {
 		prog := wire.DrawProgram(t, len(data), 2, []string{wire.Truncate, wire.BitFlip, wire.DropChunk, wire.ZeroChunk})
 		data = wire.Run(data, prog, nil)
 		damaged = true
